@@ -93,6 +93,12 @@ def run(ctx):
         else:
             ctx.ok("C02.atomic-event", k, w.where(fh))
 
+    wb_ = _C03.write_back(w, fh)
+    if wb_["sites"]:
+        # the event is replaced as a whole (`*object = copy`): only as the last step, when nothing can fail any more
+        ctx.check(wb_["ok"], "C02.atomic-event", "C02.atomic-event:write-back-last", w.where(fh),
+                  bad_msg=f"hash_and_sign_event overwrites the caller's event before its last fallible step: {wb_['why']}")
+
     # ---- signed content -----------------------------------------------------------------------------
     ctx.rule("C02.content", "sign_json success paths: the only removals are `signatures` and `unsigned` (same set as "
                             "CANONICAL_JSON_FIELDS_TO_REMOVE used by verification); the bytes passed to KeyPair::sign are "
